@@ -429,6 +429,8 @@ def _replay_case(case, v):
         used = order[:pos + 1]
         if len(used) > 1 and used[-1] == used[0]:
             used = used[:-1]  # the repeat of the first is appended again at run time
+        if max(case["bufs"]) not in used:
+            used.append(max(case["bufs"]))  # (what a first size that raises is compared with)
         return dict(case, bufs=used, ordered=True)
     return dict(case, bufs=sorted({v["buf"], max(case["bufs"])}))
 
